@@ -302,6 +302,16 @@ def rule_r5(p, res):
         anyc = [c for c in calls_in(f.node) if (dotted(c.func) or "") in ("np.any", "numpy.any") and kwarg(c, "axis") is not None]
         ok = a is not None and "param:alpha" in lv and any(isinstance(kwarg(c, "axis"), ast.Constant) and kwarg(c, "axis").value == 1 for c in anyc)
         r.check(ok, f, rs, "the error mask must be the per-point reduction (axis=1) of the containment table")
+    # NaN-safety of the containment test: a point with undefined barycentric coordinates (degenerate triangle, NaN
+    # input) lies in no triangle; only the positive conjunction of non-strict comparisons reports it as outside
+    pc = defs.single("point_containment")
+    need(pc is not None, "C09.R5: containment table not found")
+    ors = [k for k in ast.walk(pc) if isinstance(k, ast.Call) and (dotted(k.func) or "") in ("np.logical_or", "numpy.logical_or")]
+    inv = [k for k in ast.walk(pc) if isinstance(k, ast.UnaryOp) and isinstance(k.op, ast.Invert)]
+    cmps = sorted(str(norm(x)) for x in ast.walk(pc) if isinstance(x, ast.Compare))
+    r.check(not ors and not inv and cmps == ["alpha + beta <= 1", "alpha >= 0", "beta >= 0"], f, pc, "containment is written as `%s`: as the negation of a disjunction a point whose barycentric "
+            "coordinates are NaN counts as contained, so the error no longer identifies exactly the points outside the domain; it must be the conjunction alpha >= 0, beta >= 0, alpha + beta <= 1"
+            % norm(pc)[:70], {"containment": norm(pc)[:80]})
     # AbstractPWA._apply_batched raises with the concatenation of the per-batch masks
     g = p.own_method("AbstractPWA", "_apply_batched")
     r.instance(g)
@@ -406,6 +416,8 @@ WITNESSES = [
     Witness("C09.W8", "menpo/transform/homogeneous/base.py", "Homogeneous._apply", "h_y / h_y[:, -1][:, None]", "h_y / h_y[-1, -1]", rule="C09.R6", construct="Homogeneous._apply", note="seeded change R2-C09-A"),
     Witness("C09.W9", "menpo/transform/base/__init__.py", "Transform._apply_batched", "outputs.append(self._apply(x[lo_ind:hi_ind], **kwargs))", "outputs.append(self._apply(x[lo_ind:hi_ind]))",
             rule="C09.R6", construct="Transform._apply_batched", note="seeded change R2-C09-C"),
+    Witness("C09.W10", "menpo/transform/piecewiseaffine/base.py", "containment_from_alpha_beta", "np.logical_and(np.logical_and(alpha >= 0, beta >= 0), alpha + beta <= 1)",
+            "~np.logical_or(np.logical_or(alpha < 0, beta < 0), alpha + beta > 1)", rule="C09.R5", construct="containment_from_alpha_beta", note="seeded change R2-C09-B"),
     Witness("C09.T1", "menpo/transform/base/__init__.py", "Transform._apply_batched",
             "n_points = x.shape[0]", "n_points = len(x)", kind="T"),
 ]
